@@ -541,8 +541,8 @@ def extra_checks(tier):
 def classify(suite, desc):
     fe = desc.get("fe")
     if suite == "ladder":
-        if fe == "TwUdp":
-            return "F-C12-twisted-udp-dead"
+        if fe == "TwUdp" and desc["obs"]["escaped"] is not None:
+            return "F-C12-twisted-udp-escape"
         if fe == "TwTcp" and desc["obs"]["escaped"] is not None:
             return "F-C12-twisted-tcp-escape"
         return None
@@ -553,11 +553,17 @@ def classify(suite, desc):
         # Twisted TCP keeps the bytes of a frame that made it raise: later chunks are glued to them
         if fe == "TwTcp" and desc.get("escaped_seen"):
             return "F-C12-twisted-tcp-escape"
+        # the Twisted datagram protocol: same (bytes kept after an escape), plus the shared framer
+        if fe == "TwUdp" and desc.get("escaped_seen"):
+            return "F-C12-twisted-udp-escape"
+        if fe == "TwUdp" and desc.get("shared_leftover"):
+            return "F-C12-udp-shared-framer"
         return None
     if suite in ("probe", "py_probe_and_tables") and "probe" in desc:
-        if fe == "TwUdp":
-            return "F-C12-twisted-udp-dead"
-        if fe == "AioUdp" and desc.get("leftover") and not desc.get("leftover_after_raise"):
+        if fe == "TwUdp" and (desc["probe_obs"]["escaped"] is not None or
+                              (desc.get("leftover") and desc.get("leftover_after_raise"))):
+            return "F-C12-twisted-udp-escape"
+        if fe in ("AioUdp", "TwUdp") and desc.get("leftover") and not desc.get("leftover_after_raise"):
             return "F-C12-udp-shared-framer"
         if desc.get("framer") == "tls" and not desc["ctx"]["single"]:
             return "F-C12-tls-multi-unit"
@@ -580,18 +586,29 @@ def replay_finding(f):
             return o1.escaped is not None and o2.escaped is not None
         finally:
             run.close()
-    if f["id"] == "F-C12-twisted-udp-dead":
+    if f["id"] == "F-C12-twisted-udp-dead":      # fixed: the witness datagram must be answered
         run = L.Run("TwUdp", "socket", spec, {})
         try:
             run.open(0)
             o = run.feed(0, bytes.fromhex(w["datagram"]))
-            return o.escaped is not None and not o.out
+            return o.escaped is not None or [x.hex() for x in o.out] != [w["expected"]]
+        finally:
+            run.close()
+    if f["id"] == "F-C12-twisted-udp-escape":
+        run = L.Run("TwUdp", "socket", spec, {})
+        try:
+            run.open(0)
+            o1 = run.feed(0, bytes.fromhex(w["datagram"]))
+            run.open(1)
+            o2 = run.feed(1, bytes.fromhex(w["then"]))
+            return o1.escaped is not None and o2.escaped is not None
         finally:
             run.close()
     if f["id"] == "F-C12-udp-shared-framer":
         bad = []
-        for first in (w["datagram1"], w.get("short_datagram1", w["datagram1"])):
-            run = L.Run("AioUdp", "socket", spec, {})
+        for fe in ("AioUdp", "TwUdp"):
+          for first in (w["datagram1"], w.get("short_datagram1", w["datagram1"])):
+            run = L.Run(fe, "socket", spec, {})
             try:
                 run.open(0)
                 run.feed(0, bytes.fromhex(first))
